@@ -48,6 +48,9 @@ ALPHABET = [
     ("password " + S1, {"pwd": [1]}),
     ("  snmp-server community " + S2 + " ro ", {"pwd": [2]}),
     ("enable password " + S1, {"pwd": [2]}),
+    ('  secret "' + S1 + '"; ## SECRET-DATA', {"pwd": [1], "wrap": {1: ('"', '";')}}),
+    ('\t{ secret "' + S1 + '"; timeout 5; }', {"pwd": [2], "wrap": {2: ('"', '";')}}),
+    ('   "enable secret ' + S2 + '", "no ip http server"', {"pwd": [2], "wrap": {2: ("", '",')}}),
     ("hostname seattle-core", {"word": [1]}),
     ("router bgp 65001", {"as": [2]}),
     (" neighbor 10.9.8.7 remote-as 65001 description SEATTLE peer", {"ip": [1], "as": [3], "word": [5]}),
@@ -133,6 +136,12 @@ def judge_line(F, src, allowed, out, ctx, res, rc):
                 res.violation("bystander-token-rewritten|" + "+".join(feats),
                               "%s: token %d of %r became %r (line -> %r)" % (ctx, j, src, b, out), rc)
                 return changed
+    if F["pwd"]:
+        for j, (h, t) in allowed.get("wrap", {}).items():
+            if j < len(ot) and not (ot[j].startswith(h) and ot[j].endswith(t)):
+                res.violation("text-around-secret-changed|" + "+".join(feats),
+                              "%s: %r -> %r (token %d should keep %r...%r)" % (ctx, src, out, j, h, t), rc)
+                return changed
     collapse_ok = F["pwd"] or F["word"]
     if not collapse_ok and src != out:
         # inner whitespace must be exactly preserved
@@ -151,12 +160,15 @@ def mask_pseudonyms(lines_idx, outs):
     masked = []
     for li, o in zip(lines_idx, outs):
         pos = ALPHABET[li][1].get("pwd", [])
+        wrap = ALPHABET[li][1].get("wrap", {})
         toks = o[0].split()
         key = []
         for p in pos:
             if p < len(toks):
-                names.setdefault(toks[p], len(names))
-                key.append(names[toks[p]])
+                h, t = wrap.get(p, ("", ""))
+                core = toks[p][len(h): len(toks[p]) - len(t)] if toks[p].startswith(h) and toks[p].endswith(t) and (h or t) else toks[p]
+                names.setdefault(core, len(names))
+                key.append(names[core])
                 toks[p] = "<P>"
         masked.append((" ".join(toks), tuple(key)))
     return masked
@@ -263,7 +275,7 @@ class TextsPart(Part):
                         secs, names = [], {}
                         for i in tx:
                             for p in ALPHABET[i][1].get("pwd", []):
-                                s_ = ALPHABET[i][0].split()[p]
+                                s_ = ALPHABET[i][0].split()[p].strip('";,')
                                 names.setdefault(s_, len(names))
                                 secs.append(names[s_])
                         got = [k for m in mo for k in m[1]]
